@@ -1,4 +1,85 @@
-import CacheVerif.Model.Proto
+import CacheVerif.Proofs.ProtoLocks
+import CacheVerif.Props.C11
+import CacheVerif.Props.C01
+/-!
+# C05 — get-or-create and compute calls are atomic per key; user function runs once
+
+* Invocation counts under every interleaving (M4a, ghost `fnCalls` per `doCompute` activation): at most once;
+  exactly once for every call without the lock-free fast path (`Store`, `LoadAndStore`, `Compute`,
+  `LoadAndDelete`, `Delete`); for `LoadOrStore`/`LoadOrCompute` exactly when the call reports `loaded = false`;
+  and every retry edge (resize in progress, newer table, need to grow) leaves before the call.
+* Sequential exactness (M3, M2): the number of invocations of every call equals the builtin-map / TTL
+  semantics' (already part of `C11_run` and `C01_run`; restated here).
+* "Exactly one winner among racers" and "no lost update" are consequences of linearizability (C02–C04) and of
+  the sequential semantics: `Spec.once_winner` below.
+-/
 namespace Props.C05
-theorem placeholder : True := trivial
+open Model.Proto Proofs.ProtoLocks
+
+section conc
+variable {K V : Type} [DecidableEq K] (p : Params K)
+
+theorem C05_at_most_once (s : St K V) (h : Reach p s) (u : Tid) : (s.l u).fnCalls ≤ 1 :=
+  fn_at_most_once p s h u
+
+theorem C05_exactly_once (s : St K V) (h : Reach p s) (u : Tid) (k : K) (f : Option V → V × Bool) (co : Bool)
+    (hop : (s.l u).op = some (.dc k f false co)) (hpc : (s.l u).pc = .ret) : (s.l u).fnCalls = 1 :=
+  fn_exactly_once_no_lie p s h u k f co hop hpc
+
+theorem C05_iff_not_loaded (s : St K V) (h : Reach p s) (u : Tid) (k : K) (f : Option V → V × Bool)
+    (hop : (s.l u).op = some (.dc k f true false)) (hpc : (s.l u).pc = .ret) :
+    ∀ v flag, (s.l u).result = some (.val v flag) → ((s.l u).fnCalls = 0 ↔ flag = true) :=
+  fn_iff_not_loaded p s h u k f hop hpc
+
+/-- no retry edge leaves a pc at or after the call of the user function -/
+theorem C05_no_retry_after_call (s : St K V) (h : Reach p s) (u : Tid) (hfn : (s.l u).fnCalls = 1) :
+    beforeFn (s.l u).pc = false ∧ (s.l u).pc ≠ .dcLoadTable ∧ (s.l u).pc ≠ .dcLock ∧ (s.l u).pc ≠ .dcFn
+      ∧ .dcRetry ∉ (s.l u).conts :=
+  no_retry_after_fn' p s h u hfn
+
+end conc
+
+section seq
+open Spec Model.Table Proofs.TableRefine
+variable {K V : Type} [DecidableEq K] [Inhabited V]
+
+/-- sequential exactness on the tables: invocation count of every call = the builtin-map semantics' -/
+theorem C05_seq_table (var : Variant) (hv : GoodVariant var) (env : Env K) (sp : AMap K V) (m : Model.Table.St K V)
+    (h : Sim var env sp m) (op : MOp K V) :
+    (Model.Table.step var env m op).2.fnCalls = (specStep sp op).2.2 :=
+  (step_refines var env hv sp m h op).2.2
+
+/-- sequential exactness on the caches: the user-function invocations (with the argument they receive) of every
+call are those of the TTL semantics: `GetOrCompute`'s function only when no live value exists, `Compute`'s
+exactly once with `(old, true)` iff a live value exists -/
+theorem C05_seq_cache (s : Model.Cache.St K V) (a : TTL.St K V) (h : Proofs.CacheRefine.Sim s a) (op : Model.Op K V) :
+    (Model.Cache.step s op).2.fn = (TTL.step a op).2.2 :=
+  (Proofs.CacheRefine.step_sim s a h op).2.2
+
+/-- **exactly one winner**: any non-empty sequence of `LoadOrStore`s on a key that is absent (nobody else
+writing it) stores exactly the first caller's value, exactly that caller reports `loaded = false`, and every
+caller returns that one value -/
+theorem once_winner (m : AMap K V) (k : K) (hk : m.get k = none) (v : V) (vs : List V) :
+    let r := (v :: vs).foldl (fun (acc : AMap K V × List (V × Bool)) x =>
+      ((acc.1.loadOrStore k x).1, acc.2 ++ [(acc.1.loadOrStore k x).2])) (m, [])
+    r.2 = (v, false) :: vs.map (fun _ => (v, true)) ∧ r.1.get k = some v := by
+  have step1 : (m.loadOrStore k v) = (m.set k v, (v, false)) := by simp [AMap.loadOrStore, hk]
+  have hget : (m.set k v).get k = some v := by simp [AMap.get_set]
+  have key : ∀ (l : List V) (acc : List (V × Bool)),
+      (l.foldl (fun (a : AMap K V × List (V × Bool)) x => ((a.1.loadOrStore k x).1, a.2 ++ [(a.1.loadOrStore k x).2]))
+        (m.set k v, acc)) = (m.set k v, acc ++ l.map (fun _ => (v, true))) := by
+    intro l
+    induction l with
+    | nil => intro acc; simp
+    | cons x xs ih =>
+      intro acc
+      have hx : (m.set k v).loadOrStore k x = (m.set k v, (v, true)) := by simp [AMap.loadOrStore, hget]
+      simp only [List.foldl_cons, hx, List.map_cons]
+      rw [ih]; simp
+  simp only [List.foldl_cons, step1, List.nil_append]
+  rw [key]
+  exact ⟨rfl, hget⟩
+
+end seq
+
 end Props.C05
